@@ -1,10 +1,16 @@
 import PfModel.Lemmas.Pipeline
+import PfModel.Lemmas.PipelineLog
 /-!
 C02 — Calling a pipeline equals composing its functions along the DAG.
 `run`/`runArgs`/`runTop` mirror `Pipeline._run/_get_func_args/run`; `compose` is the memo-free, log-free specification.
 -/
 namespace PF.C02
 open PF PF.Pipe
+
+/-- a diamond with a tuple-output node, a default and renames, used by the non-vacuity examples -/
+def fA : Func := ⟨"fa", [("x", "x")], ["a"], [], []⟩
+def fB : Func := ⟨"fb", [("a", "a"), ("y", "y")], ["b", "c"], [("y", .int 7)], []⟩
+def fD : Func := ⟨"fd", [("a", "p"), ("b", "q"), ("c", "r")], ["d"], [], []⟩
 
 /-- **Refinement.** Whatever the memoised run returns for a requested output (that is not itself supplied) is what the
     memo-free composition along the DAG returns — for every function list with unique output names, tuple outputs,
@@ -73,6 +79,27 @@ theorem C02_surplus (fs : List Func) (kw : List (String × Val)) (o : String) (v
   · next he => rw [List.isEmpty_iff] at he; rw [he] at hmem; cases hmem
   · exact ⟨_, rfl, hmem⟩
 
+/-- **Each once, dependencies first.** For a well-formed pipeline (unique function and output names, acyclic — witnessed
+    by a rank decreasing along dependency edges) the call log of a successful run has no duplicates, lists every function
+    after the producers of all values it consumed from upstream, and contains only functions of the pipeline. -/
+theorem C02_each_once_deps_first (fs : List Func) (kw : List (String × Val)) (rank : String → Nat) (hw : WFp fs rank)
+    (n : Nat) (o : String) (v : Val) (s' : St) (h : run fs kw n o ⟨kw, [], []⟩ = .ok (v, s')) :
+    s'.calls.Nodup ∧ DepsFirst fs kw s'.calls ∧ (∀ nm ∈ s'.calls, ∃ g ∈ fs, g.name = nm) := by
+  have h0 : Inv fs kw ⟨kw, [], []⟩ :=
+    ⟨by simp, by simp, fun q hq => Or.inl hq, by intro pre nm post e; simp at e, by simp⟩
+  obtain ⟨i, _, _⟩ := run_log fs kw rank hw n o _ v s' h0 h
+  exact ⟨i.nodup, i.order, i.known⟩
+
+/-- non-vacuity of `WFp`: the diamond below is well-formed with rank fa < fb < fd -/
+example : WFp [fD, fB, fA] (fun nm => if nm = "fa" then 0 else if nm = "fb" then 1 else 2) := by
+  refine ⟨?_, ?_, ?_⟩
+  · intro f hf g hg e; simp [fD, fB, fA] at hf hg; rcases hf with rfl | rfl | rfl <;> rcases hg with rfl | rfl | rfl <;> simp_all
+  · intro f hf g hg o h1 h2; simp [fD, fB, fA] at hf hg; rcases hf with rfl | rfl | rfl <;> rcases hg with rfl | rfl | rfl <;> simp_all
+  · intro f hf p hp g hg hb
+    simp [fD, fB, fA] at hf
+    rcases hf with rfl | rfl | rfl <;> simp at hp <;> rcases hp with rfl | rfl | rfl <;>
+      simp [producer, fD, fB, fA] at hg <;> subst hg <;> simp
+
 /-- The output itself may not be supplied as a keyword. -/
 theorem C02_output_in_kwargs (fs : List Func) (kw : List (String × Val)) (o : String) (v : Val)
     (h : alookup kw o = some v) : runTop fs kw (.name o) = .error .outputInKwargs := by
@@ -80,9 +107,6 @@ theorem C02_output_in_kwargs (fs : List Func) (kw : List (String × Val)) (o : S
 
 /-- non-vacuity: a diamond with a tuple-output node, a default and a supplied intermediate; the memoised run and the
     specification agree, each function is called once, and the listing order does not matter -/
-def fA : Func := ⟨"fa", [("x", "x")], ["a"], [], []⟩
-def fB : Func := ⟨"fb", [("a", "a"), ("y", "y")], ["b", "c"], [("y", .int 7)], []⟩
-def fD : Func := ⟨"fd", [("a", "p"), ("b", "q"), ("c", "r")], ["d"], [], []⟩
 
 example : (runTop [fD, fB, fA] [("x", .int 1)] (.name "d")).toOption.map (·.calls) = some ["fa", "fb", "fd"] := by decide
 example : (runTop [fA, fD, fB] [("a", .int 5)] (.name "d")).toOption.map (·.calls) = some ["fb", "fd"] := by decide
